@@ -7,7 +7,8 @@ META = {
             "compaction with their parents still present, parents flagged deletable by an empty compaction, tmp-dir residue of a crash "
             "inside a block write, a crash inside deleteBlocks, changed retention settings, Reload and Open. TLC checks on every "
             "reachable state that a successful reload leaves exactly what the property demands (reference predicate RetentionOK: "
-            "time-expired blocks, longest newest-first run within MaxBytes/percentage including the head size, superseded and "
+            "time-expired blocks, longest newest-first run of the live blocks within MaxBytes/percentage including the head size (superseded "
+            "parents are not counted: fix ad17dfe350), superseded and "
             "flagged blocks removed, never a block newer than a retained one), idempotence, head untouched, tmp dirs gone after Open. "
             "Behaviours (a few per coverage class of every Reload/Reopen transition + seeded walks) are replayed into a real DB: block "
             "directories are real blocks whose Block.Size() is controlled to the byte, the head size is real WAL data, limits hit "
